@@ -67,9 +67,9 @@ type AStep struct {
 type HKind int
 
 const (
-	HReturn HKind = iota // log; return V   (V: number / undefined / promise / thenable / inline async call)
-	HThrow               // log; throw V
-	HNonCallable         // the handler position holds the number 5 (ignored by then)
+	HReturn      HKind = iota // log; return V   (V: number / undefined / promise / thenable / inline async call)
+	HThrow                    // log; throw V
+	HNonCallable              // the handler position holds the number 5 (ignored by then)
 )
 
 type Handler struct {
